@@ -98,7 +98,9 @@ def gen_edits(path, src):
         if isinstance(n, ast.BoolOp) and inside_func(n) and len(n.values) == 2:
             other = " or " if isinstance(n.op, ast.And) else " and "
             edits.append(Edit("BOOL-SWAP", n, "(" + other.join(text(v) for v in n.values) + ")", f"`{text(n)[:60]}` -> {other.strip()}"))
-        if isinstance(n, ast.Subscript) and inside_func(n) and isinstance(n.ctx, ast.Load):
+        if isinstance(n, ast.Subscript) and inside_func(n) and isinstance(n.ctx, ast.Load) and not (
+                isinstance(n.value, ast.Name) and n.value.id in ("Literal", "Optional", "List", "Dict", "Tuple", "Iterator", "Mapping", "Set", "Union",
+                                                                 "Callable", "Iterable", "Type")):
             s = n.slice
             val = None
             if isinstance(s, ast.Constant) and isinstance(s.value, int):
